@@ -40,8 +40,14 @@ theorem startIndex_none {len : Nat} {p : Int} (h1 : ¬ (1 ≤ p ∧ p ≤ (len :
   unfold Spec.startIndex
   rw [if_neg h1, if_neg h2]
 
+theorem checkedAdd_some {a b : Nat} (h : a + b < Usz.modulus) : Usz.checkedAdd a b = some (a + b) := by
+  unfold Usz.checkedAdd; rw [if_pos h]
+
+theorem checkedAdd_none {a b : Nat} (h : ¬ a + b < Usz.modulus) : Usz.checkedAdd a b = none := by
+  unfold Usz.checkedAdd; rw [if_neg h]
+
 theorem substringAt_spec (m : IntMode) (cs : List Char) (st : Int) (count : Option Nat)
-    (h : ∀ c, count = some c → 1 ≤ c ∧ cs.length + c < Usz.modulus) :
+    (hL : cs.length < Usz.modulus) (h : ∀ c, count = some c → 1 ≤ c) :
     substringAt m cs st count = .ok (Spec.substringChars cs st count) := by
   unfold substringAt Spec.substringChars
   cases count with
@@ -60,26 +66,38 @@ theorem substringAt_spec (m : IntMode) (cs : List Char) (st : Int) (count : Opti
         · rw [if_neg h3, startIndex_none (by omega) (by omega)]
       · rw [if_neg h2, startIndex_none (by omega) (by omega)]
   | some c =>
-    obtain ⟨hc1, hc2⟩ := h c rfl
+    have hc1 := h c rfl
     simp only
     by_cases h1 : st > 0
     · rw [if_pos h1]
       by_cases h2 : (st - 1).toNat < cs.length
-      · rw [if_pos h2, usz_add_ok m _ (by omega), startIndex_pos (by omega) (by omega)]
+      · rw [if_pos h2, startIndex_pos (by omega) (by omega)]
         simp only
-        by_cases h4 : (st - 1).toNat + c ≤ cs.length
-        · rw [if_pos h4, if_pos ⟨hc1, h4⟩]
-        · rw [if_neg h4, if_neg (fun hh => h4 hh.2)]
+        by_cases hov : (st - 1).toNat + c < Usz.modulus
+        · rw [checkedAdd_some hov]
+          simp only
+          by_cases h4 : (st - 1).toNat + c ≤ cs.length
+          · rw [if_pos h4, if_pos ⟨hc1, h4⟩]
+          · rw [if_neg h4, if_neg (fun hh => h4 hh.2)]
+        · rw [checkedAdd_none hov]
+          simp only
+          rw [if_neg (by omega)]
       · rw [if_neg h2, startIndex_none (by omega) (by omega)]
     · rw [if_neg h1]
       by_cases h2 : st < 0
       · rw [if_pos h2]
         by_cases h3 : (cs.length : Int) + st ≥ 0
-        · rw [if_pos h3, usz_add_ok m _ (by omega), startIndex_neg (by omega) (by omega)]
+        · rw [if_pos h3, startIndex_neg (by omega) (by omega)]
           simp only
-          by_cases h4 : ((cs.length : Int) + st).toNat + c ≤ cs.length
-          · rw [if_pos h4, if_pos ⟨hc1, h4⟩]
-          · rw [if_neg h4, if_neg (fun hh => h4 hh.2)]
+          by_cases hov : ((cs.length : Int) + st).toNat + c < Usz.modulus
+          · rw [checkedAdd_some hov]
+            simp only
+            by_cases h4 : ((cs.length : Int) + st).toNat + c ≤ cs.length
+            · rw [if_pos h4, if_pos ⟨hc1, h4⟩]
+            · rw [if_neg h4, if_neg (fun hh => h4 hh.2)]
+          · rw [checkedAdd_none hov]
+            simp only
+            rw [if_neg (by omega)]
         · rw [if_neg h3, startIndex_none (by omega) (by omega)]
       · rw [if_neg h2, startIndex_none (by omega) (by omega)]
 
@@ -113,64 +131,59 @@ theorem sublist2At_spec (m : IntMode) (items : List Value) (b : Bool) (i : Nat)
       simp only [this]
     · rw [if_neg h2, startIndex_none (by omega) (by omega)]
 
-/-- The argument tuples on which `sublist3` performs its index arithmetic inside `usize`
-(everything else is the defect F5 / F5b): the sums stay below `2^64`, and — in a build with
-overflow checks — a negative position does not reach before the first item. -/
-def Sublist3Safe (m : IntMode) (len : Nat) (pos : Bool × Nat) (n : Nat) : Prop :=
-  pos.2 + n < Usz.modulus ∧ len + n < Usz.modulus ∧ (m = .checked → pos.1 = true → pos.2 ≤ len)
-
 theorem sublist3At_spec (m : IntMode) (items : List Value) (b : Bool) (i n : Nat)
-    (hi : 1 ≤ i) (hi2 : i < Usz.modulus) (hL : items.length < Usz.modulus)
-    (hs : Sublist3Safe m items.length (b, i) n) :
+    (hi : 1 ≤ i) (hi2 : i < Usz.modulus) (hL : items.length < Usz.modulus) :
     sublist3At m items (b, i) n = .ok (Spec.sublistAt items (posInt (b, i)) (some n)) := by
-  obtain ⟨hs1, hs2, hs3⟩ := hs
-  simp only at hs1 hs3
   unfold sublist3At Spec.sublistAt posInt
   cases b with
   | false =>
     simp only [Bool.false_eq_true, if_false]
     rw [usz_sub_ok m _ hi hi2]
     simp only
-    rw [usz_add_ok m _ (by omega)]
-    simp only
     by_cases h2 : i - 1 < items.length
     · rw [startIndex_pos (by omega) (by omega)]
       have e : ((i : Int) - 1).toNat = i - 1 := by omega
       simp only [e]
-      by_cases h3 : i - 1 + n ≤ items.length
-      · rw [if_pos ⟨h2, h3⟩, if_pos h3]
-        unfold slice
-        rw [if_pos ⟨by omega, h3⟩]
-        have : i - 1 + n - (i - 1) = n := by omega
-        simp only [this]
-      · rw [if_neg (fun hh => h3 hh.2), if_neg h3]
-    · rw [if_neg (fun hh => h2 hh.1), startIndex_none (by omega) (by omega)]
+      by_cases hov : i - 1 + n < Usz.modulus
+      · rw [checkedAdd_some hov]
+        simp only
+        by_cases h3 : i - 1 + n ≤ items.length
+        · rw [if_pos ⟨h2, h3⟩, if_pos h3]
+          unfold slice
+          rw [if_pos ⟨by omega, h3⟩]
+          have : i - 1 + n - (i - 1) = n := by omega
+          simp only [this]
+        · rw [if_neg (fun hh => h3 hh.2), if_neg h3]
+      · rw [checkedAdd_none hov]
+        simp only
+        rw [if_neg (by omega)]
+    · rw [startIndex_none (by omega) (by omega)]
+      simp only
+      cases Usz.checkedAdd (i - 1) n with
+      | none => rfl
+      | some last => simp only; rw [if_neg (fun hh => h2 hh.1)]
   | true =>
     simp only [if_true]
     by_cases h2 : i ≤ items.length
-    · rw [usz_sub_ok m _ h2 hL]
+    · rw [if_pos h2, usz_sub_ok m _ h2 hL]
       simp only
-      rw [usz_add_ok m _ (by omega), startIndex_neg (by omega) (by omega)]
+      rw [startIndex_neg (by omega) (by omega)]
       have e : ((items.length : Int) + -(i : Int)).toNat = items.length - i := by omega
       simp only [e]
-      by_cases h3 : items.length - i + n ≤ items.length
-      · rw [if_pos ⟨by omega, h3⟩, if_pos h3]
-        unfold slice
-        rw [if_pos ⟨by omega, h3⟩]
-        have : items.length - i + n - (items.length - i) = n := by omega
-        simp only [this]
-      · rw [if_neg (fun hh => h3 hh.2), if_neg h3]
-    · rw [startIndex_none (by omega) (by omega)]
-      cases m with
-      | checked => exact absurd (hs3 rfl rfl) h2
-      | wrapping =>
-        unfold Usz.sub Usz.add
+      by_cases hov : items.length - i + n < Usz.modulus
+      · rw [checkedAdd_some hov]
         simp only
-        rw [if_neg]
-        intro hh
-        have := hh.1
-        unfold Usz.modulus at *
-        omega
+        by_cases h3 : items.length - i + n ≤ items.length
+        · rw [if_pos ⟨by omega, h3⟩, if_pos h3]
+          unfold slice
+          rw [if_pos ⟨by omega, h3⟩]
+          have : items.length - i + n - (items.length - i) = n := by omega
+          simp only [this]
+        · rw [if_neg (fun hh => h3 hh.2), if_neg h3]
+      · rw [checkedAdd_none hov]
+        simp only
+        rw [if_neg (by omega)]
+    · rw [if_neg h2, startIndex_none (by omega) (by omega)]
 
 theorem insertBeforeAt_spec (m : IntMode) (items : List Value) (b : Bool) (i : Nat) (x : Value)
     (hi : 1 ≤ i) (hi2 : i < Usz.modulus) (hL : items.length < Usz.modulus) :
